@@ -11,6 +11,6 @@ def groups(tier):
 
 
 def replay(rec):
-    if rec["replay"].get("group", "").startswith("model["):
+    if rec["replay"].get("group", "").startswith(("model[", "wiring[", "init_spread[")):
         return modelstep.replay("C04", rec)
     return kern.kernel_replay("C04", rec)
